@@ -128,6 +128,10 @@ ls.ensure("ports sound", lambda cx, result, self, line: S.forall(
     0, cx.get(self, "_ports").n, lambda i: P(_op(cx, self), cx.get(self, "_items"), cx.get(self, "_ports").a[i])))
 ls.ensure("ports complete", lambda cx, result, self, line: S.forall_int(
     lambda p: z3.Implies(P(_op(cx, self), cx.get(self, "_items"), p), _mem(cx.get(self, "_ports"), p))))
+ls.ensure("ports exact", lambda cx, result, self, line: S.forall_int(
+    lambda p: _mem(cx.get(self, "_ports"), p) == P(_op(cx, self), cx.get(self, "_items"), p)), hints=[
+    lambda cx, result, v, self, line: S.forall(0, cx.get(self, "_ports").n, lambda i: P(_op(cx, self), cx.get(self, "_items"), cx.get(self, "_ports").a[i])),
+    lambda cx, result, v, self, line: S.forall_int(lambda p: z3.Implies(P(_op(cx, self), cx.get(self, "_items"), p), _mem(cx.get(self, "_ports"), p)))])
 ls.ensure("ports ascending", lambda cx, result, self, line: z3.And(
     ascending(cx.get(self, "_ports"), strict=False),
     z3.Implies(_op(cx, self) != "eq", ascending(cx.get(self, "_ports"))),
@@ -148,6 +152,7 @@ def inv_port(cx, self):
         z3.Implies(z3.And(z3.Or(op == "eq", op == "neq"), z3.Or(plat == "asa", plat == "nxos")), items.n == 1),
         S.forall(0, ports.n, lambda i: P(op, items, ports.a[i])),
         S.forall_int(lambda p: z3.Implies(P(op, items, p), _mem(ports, p))),
+        S.forall_int(lambda p: _mem(ports, p) == P(op, items, p)),
         ascending(ports, strict=False), z3.Implies(op != "eq", ascending(ports)),
         z3.Implies(op == "eq", z3.And(ports.n == items.n, S.forall(0, items.n, lambda i: ports.a[i] == items.a[i]))))
 
@@ -198,6 +203,8 @@ sp.ensure("meaning unchanged", lambda cx, result, self, ports: _unchanged_meanin
     lambda cx, result, v, self, ports: z3.And(_op(cx, self) == _op(cx.old, self), same_list(cx.get(self, "_items"), v.items_)),
     lambda cx, result, v, self, ports: S.forall_int(lambda p: _mem(cx.get(self, "_items"), p) == _mem(v.items_, p)),
     lambda cx, result, v, self, ports: S.forall_int(lambda p: P(_op(cx, self), cx.get(self, "_items"), p) == P(_op(cx.old, self), v.items_, p)),
+    # (postcondition `meaning` of _ports_to_items, restated so that it sits among the hints)
+    lambda cx, result, v, self, ports: S.forall_int(lambda p: P(_op(cx.old, self), v.items_, p) == P(_op(cx.old, self), cx.old.get(self, "_items"), p)),
     lambda cx, result, v, self, ports: S.forall_int(lambda p: P(_op(cx, self), cx.get(self, "_items"), p) == P(_op(cx.old, self), cx.old.get(self, "_items"), p)),
     lambda cx, result, v, self, ports: S.forall_int(lambda p: _mem(cx.get(self, "_ports"), p) == P(_op(cx, self), cx.get(self, "_items"), p)),
     lambda cx, result, v, self, ports: S.forall_int(lambda p: _mem(cx.old.get(self, "_ports"), p) == P(_op(cx.old, self), cx.old.get(self, "_items"), p)),
